@@ -26,7 +26,7 @@ PROPERTY = "C05"
 RULE = ("cases = (current log-density, proposed log-density, log-correction, uniform draw u or PRNG key); generated "
         "exhaustively over boundary alphabets, by Hypothesis float32 strategies, and from real PRNG keys incl. keys "
         "drawing exactly 0.0; non-trivial = acceptance probability in {0,1}, or a non-finite operand, or |u-a| <= 1 ulp, "
-        "or (frequency/kernels) 0.02 < a < 0.98; distinct = distinct SHA-1 of the canonical case")
+        "or (frequency/kernels) 0.02 < a < 0.98, or (iwls_undefined) P(undefined ratio) in (0.01, 0.99); distinct = distinct SHA-1 of the canonical case")
 ASSUMPTIONS = [
     "float32 semantics; finite operands bounded by 1e37 so that sums do not overflow",
     "u == a with 0 < a < 1 is left unconstrained (the statement does not fix it)",
@@ -36,7 +36,7 @@ ASSUMPTIONS = [
 ]
 SHARDS = {"quick": 4, "thorough": 16}
 TECHNIQUE = ("exhaustive boundary-alphabet enumeration + Hypothesis float32 generation against a float32 reference rule; "
-             "harness-owned uniform draw and real PRNG keys incl. zero-draw keys; binomial frequency test")
+             "harness-owned uniform draw and real PRNG keys incl. zero-draw keys; binomial frequency tests (acceptance; error code 90 vs the probability of an undefined IWLS ratio)")
 LEVEL_TEXT = ("Generated-input search with an explicit float32 oracle of the acceptance rule: every combination of the boundary "
               "alphabets (finite, +-inf, NaN, under/overflow edges) x six placements of u relative to a is enumerated, random float32 "
               "triples and a Liesel graph model are added, real PRNG keys whose uniform draw is exactly 0.0 are searched for and "
